@@ -1,5 +1,7 @@
 package q
 
+import "fmt"
+
 type VariableExpr struct {
 	Name string
 }
@@ -9,6 +11,19 @@ func (e *VariableExpr) Evaluate(engine *Engine, input interface{}, args []*State
 	if err != nil {
 		return nil, err
 	}
+
+	// A variable that (directly or through other variables) refers to itself
+	// could never be evaluated.
+	if engine.evaluating[e.Name] {
+		return nil, fmt.Errorf("variable %s refers to itself", e.Name)
+	}
+
+	if engine.evaluating == nil {
+		engine.evaluating = map[string]bool{}
+	}
+
+	engine.evaluating[e.Name] = true
+	defer delete(engine.evaluating, e.Name)
 
 	return v.Evaluate(engine, input)
 }
